@@ -50,6 +50,10 @@ def run(tier, wd):
     rows_l = tc.add_tree(rep, wd, binpath, alphabet, pols, "c04-late", T.late_tree(), trs, rows)
     nre = tc.rerun(rep, wd, binpath, trs, rows_h, lambda c: [["-h"], ["bogus"]], CLAUSES, "after earlier runs")
     nre += tc.rerun(rep, wd, binpath, trs, rows_l, lambda c: [["early"], ["nothere"]], CLAUSES, "after earlier runs")
+    # the application's Spec assigned between two runs: the observed run validates against the spec in force then
+    tc.add_tree(rep, wd, binpath, alphabet, pols, "c04-ints", T.ints_tree(), trs, rows)
+    rows_r = tc.add_tree(rep, wd, binpath, alphabet, pols, "c04-respec", T.respec_tree(), trs, rows)
+    nre += tc.rerun(rep, wd, binpath, trs, rows_r, lambda c: [["a", "b", "check"], ["a"]], CLAUSES, "after earlier runs under the spec `X X`")
     rep.cov["rerun_cases"] = nre
     kinds = {}
     for c, r in rows:
